@@ -566,6 +566,8 @@ func main() {
 	var cwg sync.WaitGroup
 	sem := make(chan struct{}, nw)
 	var nondet atomic.Value
+	unrep := map[string]string{}
+	var unrepMu sync.Mutex
 	for _, s := range sigs {
 		c := classes[s]
 		cwg.Add(1)
@@ -589,7 +591,12 @@ func main() {
 					}
 				}
 				if !ok {
-					nondet.Store(fmt.Sprintf("class %q did not reproduce in isolated replay %d (got %v)", c.sig, k+1, o.findings()))
+					// seen once in the bulk run (128 sequences per worker process) but not when the sequence runs alone
+					// in a fresh process: not reportable as a violation (no replayable artefact), and not a reason to
+					// abort the whole run either - recorded in the evidence and dropped
+					unrepMu.Lock()
+					unrep[c.sig] = fmt.Sprintf("isolated replay %d gave %v", k+1, o.findings())
+					unrepMu.Unlock()
 				}
 			}
 		}()
@@ -597,6 +604,19 @@ func main() {
 	cwg.Wait()
 	if v := nondet.Load(); v != nil {
 		die(func() { ev.Nondeterminism(v.(string)) })
+	}
+	if len(unrep) > 0 {
+		var kept []string
+		for _, s := range sigs {
+			if why, bad := unrep[s]; bad {
+				fmt.Printf("NOTE: bulk observation not reproduced in isolation, dropped: %s (%s)\n", s, why)
+				delete(classes, s)
+				continue
+			}
+			kept = append(kept, s)
+		}
+		sigs = kept
+		run.Coverage["bulk_observations_not_reproduced_in_isolation"] = unrep
 	}
 
 	for _, s := range sigs {
